@@ -98,6 +98,33 @@ def run(tier, seed):
         clients = {"client-tofu": create_client_context(verify_mode=ssl.CERT_NONE, check_hostname=False),
                    "client-ca": create_client_context(verify_mode=ssl.CERT_REQUIRED, check_hostname=True)}
         clients["client-ca"].load_verify_locations(cf)
+        # identities OpenSSL's default security level refuses (RSA-1024; SHA-1 signature): building the context must fail
+        # (no service at all) - if a context comes back nevertheless, it joins the matrix like the others
+        try:
+            from cryptography import x509 as _x
+            from cryptography.x509.oid import NameOID as _N
+            from cryptography.hazmat.primitives import hashes as _h, serialization as _s
+            from cryptography.hazmat.primitives.asymmetric import rsa as _rsa
+            import datetime as _dt
+            for label, bits, digest in (("rsa1024", 1024, _h.SHA256()), ("rsa2048-sha1", 2048, _h.SHA1())):
+                k_ = _rsa.generate_private_key(public_exponent=65537, key_size=bits)
+                nm_ = _x.Name([_x.NameAttribute(_N.COMMON_NAME, "localhost")])
+                now_ = _dt.datetime.now(_dt.timezone.utc)
+                try:
+                    c_ = (_x.CertificateBuilder().subject_name(nm_).issuer_name(nm_).public_key(k_.public_key()).serial_number(_x.random_serial_number())
+                          .not_valid_before(now_ - _dt.timedelta(days=1)).not_valid_after(now_ + _dt.timedelta(days=30)).sign(k_, digest))
+                except Exception:
+                    continue            # this cryptography build refuses to sign with that digest
+                wc, wk = os.path.join(tmp, label + ".pem"), os.path.join(tmp, label + ".key")
+                open(wc, "wb").write(c_.public_bytes(_s.Encoding.PEM))
+                open(wk, "wb").write(k_.private_bytes(_s.Encoding.PEM, _s.PrivateFormat.TraditionalOpenSSL, _s.NoEncryption()))
+                try:
+                    servers["stdlib-weak-" + label] = create_server_context(wc, wk)
+                    res.count("weak-identity-accepted:" + label)
+                except Exception:
+                    res.count("weak-identity-refused:" + label)
+        except ImportError:
+            pass
         def expect(maxv): return ORDER.index(maxv) >= ORDER.index("1.2")
         cells = []
         for maxv in ORDER:
@@ -126,7 +153,7 @@ def run(tier, seed):
             if got is not None and not should:
                 res.violations.append({"clause": "handshake-below-TLS1.2-completed", "signature": "C20:%s:%s" % (name, maxv),
                                        "case": {"context": name, "peer_max_version": maxv}, "trace": {"negotiated": got, "control": control}})
-            if got is None and should:
+            if got is None and should and not name.startswith("stdlib-weak-"):
                 res.disagreements.append({"driver": "tls-matrix", "case": {"context": name, "peer_max_version": maxv}, "model": "negotiates", "impl": "refused"})
         res.sample({"matrix": [[n, m, g] for n, m, g, c in cells][:8]})
         # ---- plaintext / random bytes into the TLS layers
